@@ -89,7 +89,7 @@ m = {
     "kind_free_text": "mirror lib crate #[path]-including the module trees of /repo/nutype_macros/src (hooks on via its build.rs); Kani harnesses call the macro's validation functions with symbolic configurations"},
  ],
  "checks": checks,
- "notes": "All checks: ./check <ID> --tier quick|thorough. Exit 0 held / 1 VIOLATION (natively replayed) / 2 inconclusive. See DESIGN.md.",
+ "notes": "All checks: ./check <ID> --tier quick|thorough (run from /verif). Exit 0 held / 1 VIOLATION (natively replayed) / 2 inconclusive. Quick tier of all 14 checks: about 40 min on 16 cores. Thorough tiers decide at most VERIF_THOROUGH_CAP (default 1200) claimed harnesses per run, an even stride through the generated catalogue rotated by VERIF_SEED (0 by default); the rest is reported as not run. Known findings: known_findings.json (KNOWN-FINDING lines, exit 0); fixed entries suppress nothing. Scratch: /verif/work (regenerated; per-harness Kani artifacts are purged after every run). See DESIGN.md, PART II.",
  "not_applicable": na,
 }
 json.dump(m, open(os.path.join(V, "MANIFEST.json"), "w"), indent=1)
